@@ -1,6 +1,6 @@
 import TsVerif.Common.IO
 import TsVerif.C20.Judge
-import TsVerif.C20.Props
+import TsVerif.C20.Idempotent
 /-!
 Driver for C20.  Protocol (hex = UTF-8 bytes in hex, `-` = empty):
 ```
@@ -96,7 +96,7 @@ def diffStr (a b : Str) : String :=
 def runCase (s : St) : String :=
   let orc := mkOracle s.acts
   let raw : Str → Bool := fun n => ((s.nms.find? fun (n', _) => n' == n).map (·.2)).getD false
-  let flt : Str → Bool := fun n => if s.filter == "i" then raw n else if s.filter == "x" then !raw n else true
+  let flt : Str → Bool := fun n => if s.filter == "i" || s.filter == "b" then raw n else if s.filter == "x" then !raw n else true
   let e0 := s.ent0.toList
   let e1 := s.ent1.toList
   let m0 := parseFile s.os s.orig
@@ -134,9 +134,12 @@ def runCase (s : St) : String :=
   let quoted := (e0 ++ e1).any fun e => (e.output.filter fun c => c == '\'' || c == '"').length ≥ 2
   let sxIn := (sexps.filter inFormatClass).length
   let canon := (e0.filter fun e => decide (e.attrs = flagsOf s.os e.name e.attrsStr)).length
-  let actok := (s.acts.filter fun (_, _, a) => actOKb a).length
+  let stripok := (s.acts.filter fun (_, _, a) => stripSexpFields a.sexpFields == a.sexpPlain).length
+  let actok := (s.acts.filter fun (_, _, a) => actOKGb a).length
+  let shape := (e0.filter entryShapeB).length
+  let expect := (e0.filter entryExpectB).length
   let model := if c1 == "ok" then "" else s!" model1={hexOf u1}"
-  s!"{s.id} parse0={p0} parse1={p1} upd1={c1} upd2={c2} res1={r1} res2={r2} bupd1={bu1} bupd2={bu2} bjudge={bj} dir={if s.dir then 1 else 0} judge={j} n0={e0.length} n1={e1.length} attrs={attrs} wrong={wrong} delimlike={delimLike} suffixed={if (firstSuffix (splitIncl s.orig)).isSome then 1 else 0} wrote={if s.wrote1 then 1 else 0} filter={s.filter} carried={(e0.filter fun e => !flt e.name).length} carriedcst={(e0.filter fun e => !flt e.name && e.attrs.cst).length} wf={if wf then 1 else 0} canon={canon} acts={s.acts.length} actok={actok} sx={sexps.length} sxclass={sxIn} quoted={if quoted then 1 else 0} crlf={if s.orig.contains '\r' then 1 else 0} bytes={s.orig.length}{model}"
+  s!"{s.id} parse0={p0} parse1={p1} upd1={c1} upd2={c2} res1={r1} res2={r2} bupd1={bu1} bupd2={bu2} bjudge={bj} dir={if s.dir then 1 else 0} judge={j} n0={e0.length} n1={e1.length} attrs={attrs} wrong={wrong} delimlike={delimLike} suffixed={if (firstSuffix (splitIncl s.orig)).isSome then 1 else 0} wrote={if s.wrote1 then 1 else 0} filter={s.filter} carried={(e0.filter fun e => !flt e.name).length} carriedcst={(e0.filter fun e => !flt e.name && e.attrs.cst).length} wf={if wf then 1 else 0} stripok={stripok} canon={canon} shape={shape} expectok={expect} acts={s.acts.length} actok={actok} sx={sexps.length} sxclass={sxIn} quoted={if quoted then 1 else 0} crlf={if s.orig.contains '\r' then 1 else 0} bytes={s.orig.length}{model}"
 
 def step (s : St) (line : String) : IO St := do
   match line.splitOn " " with
@@ -150,6 +153,10 @@ def step (s : St) (line : String) : IO St := do
     return { s with acts := s.acts ++ [(unhexStr l, unhexStr i, { sexpFields := unhexStr sf, sexpPlain := unhexStr sp, cst := unhexStr c, hasError := he == "1" })] }
   | "ent0" :: ws => return (match parseEntry ws with | some e => { s with ent0 := s.ent0.push e } | none => s)
   | "ent1" :: ws => return (match parseEntry ws with | some e => { s with ent1 := s.ent1.push e } | none => s)
+  | ["strip", a, b] =>
+    let m := stripSexpFields (unhexStr a)
+    IO.println s!"strip strip={if m == unhexStr b then "ok" else "DIFF:" ++ a}"
+    return s
   | ["filter", f] => return { s with filter := f }
   | ["borig", h] => return { s with dir := true, borig := unhexStr h }
   | ["bafter1", h] => return { s with bafter1 := unhexStr h }
